@@ -134,8 +134,10 @@ func HarnessC03FilterRoutes() {
 	_, err2 := lazy.Execute(Context{"name": "uses", "x": "v"})
 	verifAssert(err2 != nil, "banned filter usable through a lazily included file")
 	verifAssert(c03Count == 0, "banned filter code ran through a lazy include")
-	// other sets are unaffected
+	// other sets are unaffected: the very same template compiles in a set without the ban
 	set2 := NewSet("other", ml)
+	_, err = set2.FromString(routes[r])
+	verifAssert(err == nil, "the same template must compile in another set that has no ban (sets must not share restrictions, and a file route must be served by the set's own loaders)")
 	tpl2, err := set2.FromString("{{ x|" + F + " }}")
 	verifAssert(err == nil, "a ban must not affect other sets")
 	if F == "verifprobe" {
@@ -211,6 +213,10 @@ func HarnessC03TagRoutes() {
 		verifAssert(c03Count == 0, "banned tag code ran through a lazy include")
 	}
 	set2 := NewSet("other", ml)
+	if T == "verifprobe" || T == "include" || T == "ssi" {
+		_, err := set2.FromString(routes[r])
+		verifAssert(err == nil, "the same template must compile in another set that has no ban")
+	}
 	if T == "verifprobe" {
 		tpl2, err := set2.FromString("{% verifprobe %}")
 		verifAssert(err == nil, "a ban must not affect other sets")
